@@ -105,8 +105,10 @@ LLName(d) == IF d = NDim THEN "Sigma" ELSE "P" \o ToString(d)      \* names of t
 LLId(i)   == "Log-likelihood " \o ToString(i)
 NameOf(k) == IF k <= NBottom THEN LLName(EtaSeq[k][3]) ELSE TopNameFull(FreeTop[k - NBottom])
 IdOf(k)   == IF k <= NBottom THEN LLId(EtaSeq[k][2]) ELSE "None"
-Names == [k \in 1..NParams |-> NameOf(k)]
-Ids   == [k \in 1..NParams |-> IdOf(k)]
+NamesOf == [k \in 1..NParams |-> NameOf(k)]
+IdsOf   == [k \in 1..NParams |-> IdOf(k)]
+Names == tb.names          \* cached by the second build step
+Ids   == tb.ids
 
 -----------------------------------------------------------------------------
 (* Mech: transcription of chi's index arithmetic *)
@@ -174,7 +176,7 @@ Init == /\ \E n \in 1..MaxSub : subs \in [1..n -> SubDescs]
            IN fixed \in UNION {kSubset(k, 1..ntf) : k \in 0..(IF MaxFixed < ntf THEN MaxFixed ELSE ntf)}
         /\ phase = "raw" /\ tb = <<>>
 \* Build: derive the tables (sequentially dependent ones through a LET chain)
-Build == /\ phase = "raw" /\ phase' = "built"
+Build == /\ phase = "raw" /\ phase' = "tabled"
          /\ LET hd == HDimsOf
                 tf == TopFullOf
             IN tb' = [hdims |-> hd,
@@ -184,7 +186,12 @@ Build == /\ phase = "raw" /\ phase' = "built"
                       collide |-> NSub > 1 /\ Cardinality({LocalNameOf(tf[k]) : k \in 1..Len(tf)}) # Len(tf),
                       special |-> SpecialTableOf]
          /\ UNCHANGED <<subs, nIds, fixed>>
-Next == Build
+\* second step: render and cache the published names and IDs
+NameIt == /\ phase = "tabled" /\ phase' = "built"
+          /\ tb' = [hdims |-> tb.hdims, etaseq |-> tb.etaseq, topfull |-> tb.topfull, freetop |-> tb.freetop,
+                    collide |-> tb.collide, special |-> tb.special, names |-> NamesOf, ids |-> IdsOf]
+          /\ UNCHANGED <<subs, nIds, fixed>>
+Next == Build \/ NameIt
 Built == phase = "built"
 Spec == Init /\ [][Next]_vars
 
